@@ -9,8 +9,8 @@ package main
 //     parser's defaults (request parsing: C08); the slot / signature stays symbolic.
 //   - bin.UnmarshalBin and solanatxmetaparsers.ParseAnyTransactionStatusMeta inside the real
 //     parseTransactionAndMetaFromNode (rewritten call sites): the decoded transaction carries the
-//     loaded transaction bytes in its first signature, the decoded metadata is a token holding
-//     the loaded (decompressed) metadata bytes.
+//     signature of the loaded wire bytes and remembers the message bytes; the decoded metadata is
+//     a token holding the loaded (decompressed) metadata bytes.
 //   - encodeTransactionResponseBasedOnWantedEncoding (renamed): a token holding the encoding, the
 //     transaction it was given and the metadata it was given (base58/base64/zstd/JSON encoders are
 //     library code).
@@ -62,16 +62,18 @@ func parseGetTransactionRequest(raw *json.RawMessage) (*GetTransactionRequest, e
 
 // --- decoder / encoder tokens --------------------------------------------------------------------
 
-// verifC02UnmarshalTx replaces bin.UnmarshalBin(&tx, buf): the decoded transaction remembers the
-// bytes it was decoded from (at most 63) in its first signature.
+// verifC02UnmarshalTx replaces bin.UnmarshalBin(&tx, buf) in parseTransactionAndMetaFromNode: the
+// wire form of a model transaction is compact-u16(1) ++ signature ++ message bytes (at most 255);
+// the decoded transaction carries that signature and remembers the message bytes in the data of
+// its only instruction.
 func verifC02UnmarshalTx(_ any, tx *solana.Transaction, buf []byte) error {
-	if len(buf) == 0 || len(buf) > 63 {
+	if len(buf) < verifC02TxHead || len(buf) > verifC02TxHead+255 || buf[0] != 1 {
 		return errors.New("verif model: transaction bytes outside the model")
 	}
 	var s solana.Signature
-	copy(s[:], buf)
-	s[63] = byte(len(buf))
+	copy(s[:], buf[1:verifC02TxHead])
 	tx.Signatures = []solana.Signature{s}
+	tx.Message.Instructions = []solana.CompiledInstruction{{Data: append([]byte{}, buf[verifC02TxHead:]...)}}
 	return nil
 }
 
@@ -86,25 +88,34 @@ type verifC02EncTok struct {
 	encoding solana.EncodingType
 	sig0     solana.Signature
 	nsigs    int
+	msg      []byte
+	ninstr   int
 }
 
 func encodeTransactionResponseBasedOnWantedEncoding(encoding solana.EncodingType, tx solana.Transaction, meta any) (any, any, error) {
-	t := &verifC02EncTok{encoding: encoding, nsigs: len(tx.Signatures)}
+	t := &verifC02EncTok{encoding: encoding, nsigs: len(tx.Signatures), ninstr: len(tx.Message.Instructions)}
 	if len(tx.Signatures) > 0 {
 		t.sig0 = tx.Signatures[0]
+	}
+	if len(tx.Message.Instructions) > 0 {
+		t.msg = tx.Message.Instructions[0].Data
 	}
 	return t, meta, nil
 }
 
 // verifC02SameTx: branch-free "the response pair (transaction token, meta) carries exactly the
-// archived payloads of t, encoded as requested".
+// archived payloads of t (signature and message bytes; metadata bytes), encoded as requested, and
+// the response's signature list is the transaction's".
 func verifC02SameTx(txAny, metaAny any, sigs []solana.Signature, t *verifC02Tx, enc solana.EncodingType) uint64 {
 	tok, ok := txAny.(*verifC02EncTok)
-	if !ok || tok.nsigs != 1 || tok.encoding != enc || len(sigs) != 1 {
+	if !ok || tok.nsigs != 1 || tok.ninstr != 1 || tok.encoding != enc || len(sigs) != 1 {
 		return 0
 	}
-	n := len(t.data.want)
-	same := verifC02B(bytes.Equal(tok.sig0[:n], t.data.want)) & verifC02B(tok.sig0[63] == byte(n)) & verifC02B(sigs[0] == tok.sig0)
+	want := t.data.want
+	if len(tok.msg) != len(want)-verifC02TxHead {
+		return 0
+	}
+	same := verifC02B(want[0] == 1) & verifC02B(bytes.Equal(tok.sig0[:], want[1:verifC02TxHead])) & verifC02B(bytes.Equal(tok.msg, want[verifC02TxHead:])) & verifC02B(sigs[0] == tok.sig0)
 	if len(t.meta.want) == 0 {
 		if metaAny != nil {
 			return 0
